@@ -22,9 +22,10 @@ var checks = map[string]check{
 		Assume: []string{"include literals are spelled so that thriftgo's lookup order (working directory first, including file's directory second) finds the intended file", "global names are unique over the whole program, so two includes with the same prefix never both define a referenced name"},
 	},
 	"C17": {
-		ID: "C17", Pkg: "c17",
+		ID: "C17", Pkg: "c17", NeedTrim: true,
 		Jobs: []job{
 			{Run: "^TestDumpRoundTrip$", Quick: 1200, QShards: 10, Thor: 40000, TShards: 15},
+			{Run: "^TestTrimmerRewrite$", Quick: 40, QShards: 3, Thor: 1500, TShards: 8},
 		},
 		Rule:   "IDL models (1-3 files) with annotations on every node kind, literals over an alphabet with both quotes, &, <, >, #, backslash pairs and HTML entities, negative ids, nested constant literals, doubles across magnitudes, cpp_include; parsed by the real front end, every file dumped with dump.DumpIDL and the dumped program re-parsed, re-checked and compared file by file; non-trivial = program with >=1 literal containing a quote character and >=1 containing '&' or a backslash, distinct by text",
 		Assume: []string{"comments and cpp_type are not compared (the property does not list them)", "a double with an integral value may come back as an integer constant of equal value"},
@@ -52,6 +53,7 @@ var checks = map[string]check{
 		ID: "C19", Pkg: "c19", Tags: "verif", Race: true, MaxPar: 8,
 		Jobs: []job{
 			{Run: "^TestPersistSchedules$", Quick: 500, QShards: 8, Thor: 14300, TShards: 14},
+			{Run: "^TestPersistGoBackend$", Quick: 300, QShards: 2, Thor: 5000, TShards: 4},
 		},
 		Rule: "n 0..40 jobs, GOMAXPROCS k 1..16, fault set (post-process error / target is a directory / parent or ancestor is a regular file), gate order permutation + pauses, yield script at the verif hook points; non-trivial = n>k and F non-empty with a failing job whose gate opens after a later job's gate, distinct by case JSON",
 		Assume: []string{
